@@ -214,6 +214,14 @@ fn join_pieces(v: P, d1: P, d2: P, hw: f64, join: u8, miter_limit: f64, take: Ta
             if take == Take::Larger {
                 sides.push(1.0);
                 sides.push(-1.0);
+            } else if join == 1 {
+                // round join: whichever side is taken as outer, the sector runs from one normal through the
+                // direction beyond the vertex to (almost) the opposite normal; both candidates contain the
+                // cone around d1 that stops 0.002 rad short of the two normals, so that cone is certain
+                let tilt = 2e-3;
+                let a = norm(add(mul(n1, -1.0), mul(d1, tilt)));
+                let b = norm(add(n1, mul(d1, tilt)));
+                out.push(Piece::Sector { c: v, r: hw, a, b });
             }
         }
     } else {
